@@ -123,6 +123,12 @@ func (p *printer) Print(v interface{}) {
 
 	case *ast.BasicLit:
 		data = x.Value
+		if data != "" && opCombinesWith(p.lastTok, data[0]) && !p.spaceBefore {
+			// A literal that carries its sign, such as the -1 of
+			// a programmatically built <-1, must not combine with
+			// the preceding operator into another token.
+			p.allowed |= blank
+		}
 		switch x.Kind {
 		case token.STRING:
 			// TODO: only do this when simplifying. Right now this does not
@@ -448,6 +454,23 @@ func mayCombine(prev, next token.Token) (before, after bool) {
 		before = s[0] == '-' // --
 	case token.QUO:
 		before = s[0] == '*' // /*
+	default:
+		before = opCombinesWith(prev, s[0])
 	}
 	return before, false
+}
+
+// opCombinesWith reports whether the operator prev, written directly
+// before text starting with lead, would lex together with it as another
+// token: a unary < > or ! hugs its operand, and the operand may itself
+// start with an operator character (a nested unary expression, or a
+// number literal that carries its sign).
+func opCombinesWith(prev token.Token, lead byte) bool {
+	switch prev {
+	case token.LSS:
+		return lead == '-' || lead == '=' // <- <=
+	case token.GTR, token.NOT:
+		return lead == '=' // >= !=
+	}
+	return false
 }
